@@ -958,6 +958,12 @@ def _compile_bool(ctx, t, idset, memo):
                 len_of = aid
                 break
         key, neg = _prop_key(ctx, t)
+        intern = memo.setdefault("__intern__", {})
+        names = memo.setdefault("__names__", [])
+        if key not in intern:
+            intern[key] = len(names)
+            names.append(key)
+        key = intern[key]          # small integer: looked up thousands of times per decision
 
         def f(env, props):
             if num_ok:
@@ -1069,6 +1075,21 @@ def order_equiv(ctx, t1, t2, variables, pre=None, lo=1):
         if a is None:
             return None
         ids.append(a)
+    ckey = None
+    if pre is None:
+        cache = ctx.__dict__.setdefault("_order_equiv_cache", {})
+        ckey = (t1.key(), t2.key(), tuple(ids), lo)
+        if ckey in cache:
+            return cache[ckey]
+    res = _order_equiv(ctx, t1, t2, ids, pre, lo)
+    if ckey is not None and not (res is None and _DEADLINE[0] is not None and time.time() > _DEADLINE[0]):
+        cache[ckey] = res
+    return res
+
+
+def _order_equiv(ctx, t1, t2, ids, pre, lo):
+    import itertools
+    from fractions import Fraction
     hi = lo + 2
 
     def coeffs(r):
@@ -1101,18 +1122,20 @@ def order_equiv(ctx, t1, t2, variables, pre=None, lo=1):
             break
         for k in pending:
             props[k] = False
-    keys = sorted(props, key=repr)
+    names = memo.get("__names__", [])
+    keys = sorted(props, key=lambda i_: repr(names[i_]))
     if len(keys) > 12:
         return None
     # equalities of one term with two different constants exclude each other
     excl = []
     const_eq = {}
-    for k in keys:
+    for ki in keys:
+        k = names[ki]
         if k[0] == "cmp" and k[1] == "eq" and len(k[2]) == 2:
             for i_ in (0, 1):
                 other, cst = k[2][i_], k[2][1 - i_]
                 if _key_is_constant(ctx, cst):
-                    const_eq.setdefault(other, []).append((k, cst))
+                    const_eq.setdefault(other, []).append((ki, cst))
     for other, lst in const_eq.items():
         for i_ in range(len(lst)):
             for j_ in range(i_ + 1, len(lst)):
